@@ -169,6 +169,15 @@ def _d3(chk, fb):
             else:
                 chk.refuted("D3", f.key, construct, f.loc(e), "%s takes exp(%s) without subtracting the maximum: the sum overflows where the shifted formula stays finite" % (f.name, render(a)),
                             witness={"input": "v1 = {800, 801}"})
+        # a log-domain result must not be obtained as the logarithm of a sum taken back to the linear domain: sumExp multiplies
+        # the shift back in (x * exp(M)), which is exactly the overflow/underflow the shifted formula avoids
+        if f.name in ("logSumExp", "logMeanExp"):
+            for c in f.all_nodes():
+                if is_call(c) and c["callee"]["name"] == "log" and not c["callee"].get("inrepo") and f.args(c):
+                    inner = [x for x in walk(f.args(c)[0]) if is_call(x) and x["callee"]["name"] in ("sumExp",)]
+                    if inner:
+                        chk.refuted("D3", f.key, "log-of-linear-sum", f.loc(c), "%s returns log(%s): the sum is formed in the linear domain (sumExp multiplies exp(max) back in), so it overflows to +inf / underflows to 0 for |max| above ~709 where the log-domain value is finite" % (
+                            f.name, render(inner[0])[:60]), witness={"input": "v1 = {800, 801}, v2 = {1, 1}"})
         # every shift that is subtracted must have been tested for infinity first, and must be added back
         for sid, (nm, vec, dn) in shifts.items():
             uses = [e for e in exps if any(x["k"] == "DeclRefExpr" and x["decl"]["id"] == sid for x in walk(f.args(e)[0])) and strip(f.args(e)[0])["k"] == "BinaryOperator"]
@@ -376,7 +385,7 @@ def _d5(chk, fb):
             if "size() == 1" in ct:
                 chk.proved("D5", f.key, construct, f.loc(r), "single element")
                 continue
-            if any(cfg.dominates(cfg.stmt_block(s_), cfg.stmt_block(r)) and e1.before_in_function(cfg, s_, r) for s_ in full):
+            if any(cfg.dominates(cfg.stmt_block(s_), cfg.stmt_block(r)) and (cfg.stmt_block(s_) != cfg.stmt_block(r) or e1.earlier_in_block(cfg, s_, r)) for s_ in full):
                 chk.proved("D5", f.key, construct, f.loc(r), "read after std::sort(%s.begin(), %s.end())" % (vec, vec))
             elif partial and any(pc["callee"]["name"] == "nth_element" and len(f.args(pc)) >= 3 and render(f.args(pc)[1], local_inits(f)).replace(" ", "") in (
                     "(%s.begin()+%s)" % (vec, render(f.args(r)[0], local_inits(f)).replace(" ", "")),) and cfg.dominates(cfg.stmt_block(pc), cfg.stmt_block(r)) for pc in partial):
